@@ -5,6 +5,7 @@ one injected mutation (exit 12 expected, an ERROR line must name the directory h
 Observed: exit code, exception class and ERROR lines of `verify -dh`."""
 import os
 import shutil
+import subprocess
 
 from .. import classify, drive, world
 
@@ -168,6 +169,27 @@ def run_case(cs):
         return  # the mutation phase below models one pattern list for the whole tree
     if pure_n:
         cs.count("pure_n_histories")
+        inner = sorted(k for k, v in world.read_tree(root).items() if v is not None and any(k.startswith(n + "/") for n in nested) and not os.path.islink(os.path.join(root, k)))
+        if inner and not own_pattern and len(nested) == 1:
+            # (with several nested histories in different formats the tool's rule "one format that verifies is enough"
+            # decides; only the single nested history is judged here)
+            # the outer history never recorded a directory hash (-n only), the nested ones did: a change inside a nested
+            # history is a change "with respect to all recorded generations" all the same
+            work3 = os.path.join(d, "N")
+            subprocess.run(["cp", "-a", root, work3])
+            victim = rng.choice(inner)
+            with open(os.path.join(work3, victim), "ab") as f:
+                f.write(b"!")
+            r3 = drive.run("verify", [work3, "-dh"])
+            cs.evaluated()
+            cs.count("mutated_judged")
+            cs.count("pure_n_outer_history_with_hashed_nested_history")
+            cs.cls(shape, "nested%d" % len(nested), pattern, "content-in-nested-under-pure-n", r3.exit)
+            if r3.internal:
+                cs.violation(classify.internal_key(r3), classify.internal_sig(r3, "verify-dh"), {**ctx, **r3.brief()})
+            elif r3.exit != 12:
+                cs.violation("dh-change-missed", {"kind": "dh-change-missed", "exit": r3.exit, "mutation": "content", "depth0": False, "nested": True, "outer_pure_n": True}, {**ctx, "victim": victim, "out": r3.text[-300:]})
+            shutil.rmtree(work3, ignore_errors=True)
         return
     if rng.random() < 0.15:
         # change the tree, seal it again in a format already used, then verify -dh: the tree differs from what the
